@@ -85,6 +85,9 @@ struct Ctx<'a> {
     cl0: Cl,
     l_all: usize,
     l_reach: usize,
+    /// enlarged-alphabet sweep: symbols below this index belong to the base alphabet; only histories containing an
+    /// enlarged-alphabet symbol are counted (the others were counted by the base sweep). 0 = base sweep.
+    base_len: usize,
 }
 
 /// Apply `hist` to a fresh session. Returns the decisions and the complaints raised by the LAST step.
@@ -125,23 +128,28 @@ fn visit(cx: &Ctx, acc: &mut Acc, hist: &mut Vec<usize>, parent_ds: &[Decision],
             return;
         }
     };
-    acc.nodes += 1;
+    let counted = cx.base_len == 0 || hist.iter().any(|&s| s >= cx.base_len);
+    if counted {
+        acc.nodes += 1;
+    }
     // determinism audit: prefix decisions re-derived on a fresh session == what the parent recorded
     if !parent_ds.is_empty() {
         if ds[..parent_ds.len()] != *parent_ds {
             vcore::machinery_error(&format!("replay divergence: history {} gave {:?} then {:?}", case_json(cx, hist), parent_ds, ds));
         }
-        acc.validated += 1;
+        if counted {
+            acc.validated += 1;
+        }
     }
     let d = *ds.last().unwrap();
     for c in complaints {
         cx.mv.add(&c.key, hist.len(), format!("{} | case {}", c.text, case_json(cx, hist)), case_json(cx, hist));
     }
     let resends_before = ds[..ds.len() - 1].iter().filter(|d| d.is_resend()).count();
-    if resends_before > 0 {
+    if resends_before > 0 && counted {
         acc.nontrivial += 1;
     }
-    if reachable {
+    if reachable && counted {
         acc.reachable += 1;
         acc.kinds[kind_index(d)] += 1;
         if !cx.idem && d.is_resend() {
@@ -176,7 +184,7 @@ fn replay(r: &Report, syms: &[Sym], case: &Value) {
         .map(|n| syms.iter().position(|s| Some(s.name.as_str()) == n.as_str()).unwrap_or_else(|| vcore::machinery_error("replay: unknown symbol")))
         .collect();
     let mv = retrysym::MinViolations::default();
-    let cx = Ctx { r, mv: &mv, syms, policy, real: retrysym::policy_of(policy), idem: case["idempotent"].as_bool().unwrap_or(false), cl0, l_all: 0, l_reach: 0 };
+    let cx = Ctx { r, mv: &mv, syms, policy, real: retrysym::policy_of(policy), idem: case["idempotent"].as_bool().unwrap_or(false), cl0, l_all: 0, l_reach: 0, base_len: 0 };
     // judge every step of the history (the recorded case is the minimal failing one, its last step complains)
     for n in 1..=hist.len() {
         let (ds, complaints) = run_history(&cx, &hist[..n]);
@@ -193,7 +201,11 @@ fn main() {
     if let Err(e) = cqlref::retry::self_test() {
         vcore::machinery_error(&format!("cqlref::retry self-test failed: {e}"));
     }
-    let syms = retrysym::alphabet();
+    let syms = retrysym::extended_alphabet();
+    let base_len = retrysym::alphabet().len();
+    if syms[..base_len].iter().zip(retrysym::alphabet().iter()).any(|(a, b)| a.name != b.name) {
+        vcore::machinery_error("the enlarged alphabet must start with the base alphabet");
+    }
     if let Some(case) = r.replay_case() {
         replay(&r, &syms, &case);
         r.finish_replay();
@@ -205,30 +217,35 @@ fn main() {
             vcore::machinery_error("consistency mapping self-test failed");
         }
     }
-    let l_all = r.args.extra_value("--l-all").and_then(|s| s.parse().ok()).unwrap_or(r.tier().pick(4usize, 4usize));
+    let l_all = r.args.extra_value("--l-all").and_then(|s| s.parse().ok()).unwrap_or(r.tier().pick(3usize, 4usize));
     let l_reach = r.args.extra_value("--l-reach").and_then(|s| s.parse().ok()).unwrap_or(r.tier().pick(6usize, 8usize));
+    // enlarged alphabet (one symbol per variant of every non-database error family): smaller depth
+    let le_all = r.args.extra_value("--le-all").and_then(|s| s.parse().ok()).unwrap_or(r.tier().pick(2usize, 3usize));
+    let le_reach = r.args.extra_value("--le-reach").and_then(|s| s.parse().ok()).unwrap_or(r.tier().pick(4usize, 5usize));
     let jobs = r.args.jobs;
-    let mut items = Vec::new();
-    for policy in Policy::ALL {
-        for idem in [false, true] {
-            for cl0 in Cl::ALL {
-                for s in 0..syms.len() {
-                    items.push((policy, idem, cl0, s));
+    let r_ref = &r;
+    let mv = retrysym::MinViolations::default();
+    let mv_ref = &mv;
+    for (n_syms, la, lr, bl) in [(base_len, l_all, l_reach, 0usize), (syms.len(), le_all, le_reach, base_len)] {
+        let mut items = Vec::new();
+        for policy in Policy::ALL {
+            for idem in [false, true] {
+                for cl0 in Cl::ALL {
+                    for s in 0..n_syms {
+                        items.push((policy, idem, cl0, s));
+                    }
                 }
             }
         }
+        let syms_ref = &syms[..n_syms];
+        vcore::par::for_each(jobs, 1, items.into_iter(), |(policy, idem, cl0, s)| {
+            let cx = Ctx { r: r_ref, mv: mv_ref, syms: syms_ref, policy, real: retrysym::policy_of(policy), idem, cl0, l_all: la, l_reach: lr, base_len: bl };
+            let mut hist = vec![s];
+            let mut acc = Acc::default();
+            visit(&cx, &mut acc, &mut hist, &[], true);
+            acc.flush(&cx);
+        });
     }
-    let r_ref = &r;
-    let syms_ref = &syms[..];
-    let mv = retrysym::MinViolations::default();
-    let mv_ref = &mv;
-    vcore::par::for_each(jobs, 1, items.into_iter(), |(policy, idem, cl0, s)| {
-        let cx = Ctx { r: r_ref, mv: mv_ref, syms: syms_ref, policy, real: retrysym::policy_of(policy), idem, cl0, l_all, l_reach };
-        let mut hist = vec![s];
-        let mut acc = Acc::default();
-        visit(&cx, &mut acc, &mut hist, &[], true);
-        acc.flush(&cx);
-    });
     mv.flush(&r);
     // vacuity guards: the bounds of the statement must be attained by the real policies (else the
     // alphabet misses the branches that matter)
@@ -242,11 +259,14 @@ fn main() {
         vcore::machinery_error("vacuity: no non-idempotent re-send decision was ever seen");
     }
     r.set_rule(&format!(
-        "E-BFS over histories (state = failure history on a fresh session; replayed, sessions do not clone). Alphabet {} symbols (every DbError variant x the field values any policy branches on; broken connection; stream-id exhaustion; 9 parse/serialisation errors) x idempotent flag x 11 initial consistencies x 3 policies. Sweep 'all': every history of length <= {l_all}; sweep 'reach': every history the loop can produce (continues only after a re-send decision) of length <= {l_reach}. states = history nodes, transitions = decisions judged (one per node), traces_validated = nodes whose whole prefix was re-derived on a fresh session and compared with the parent's record. distinct_nontrivial = histories with at least one earlier re-send decision (session flags / lowered consistency in play).",
+        "E-BFS over histories (state = failure history on a fresh session; replayed, sessions do not clone). Base alphabet {base_len} symbols (every DbError variant x the field values any policy branches on; broken connection; stream-id exhaustion; 9 parse/serialisation errors), enlarged alphabet {} symbols (base + one symbol per variant of every non-database family: every BrokenConnectionErrorKind incl. nested frame-header / event variants and 7 write / 3 read io::ErrorKinds, every variant of the serialisation / body-extension / result-parse / error-parse / unexpected-response families) x idempotent flag x 11 initial consistencies x 3 policies. Sweep 'all': every history of length <= {l_all}; sweep 'reach': every history the loop can produce (continues only after a re-send decision) of length <= {l_reach}; the same two sweeps over the enlarged alphabet with lengths <= {le_all} / <= {le_reach} (only histories containing an enlarged-alphabet symbol are counted there). states = history nodes, transitions = decisions judged (one per node), traces_validated = nodes whose whole prefix was re-derived on a fresh session and compared with the parent's record. distinct_nontrivial = histories with at least one earlier re-send decision (session flags / lowered consistency in play).",
         syms.len()
     ));
     r.set_exhaustive(true);
-    r.note("alphabet_size", json!(syms.len()));
+    r.note("alphabet_size", json!(base_len));
+    r.note("enlarged_alphabet_size", json!(syms.len()));
+    r.note("enlarged_history_len_all", json!(le_all));
+    r.note("enlarged_history_len_reachable", json!(le_reach));
     r.note("history_len_all", json!(l_all));
     r.note("history_len_reachable", json!(l_reach));
     r.sample(json!({"policy":"default","idempotent":true,"cl0":"QUORUM","history":["ReadTimeout(received=2,required=2,data_present=false)","WriteTimeout(BATCH_LOG,received=0)","Overloaded"],"decisions":["same","same","next"]}));
